@@ -131,13 +131,18 @@ def _keyclass(k, prefix):
 class World:
     def __init__(self, scenario):
         self.sc = scenario
-        self.texts = {aid: model.arg_text(ad) for aid, ad in scenario["args"].items()}
+        self.texts = model.arg_texts(scenario)
         self.shared = {}
         self.snap = {}
         self.arg_digest = {}
+
+        def get_shared(aid):
+            if aid not in self.shared:
+                self.shared[aid] = model.materialise_arg(scenario, self.texts, aid, get_shared)
+            return self.shared[aid]
+
         for aid in sorted(scenario["args"]):
-            obj = model.materialise(scenario["args"][aid], self.texts[aid])
-            self.shared[aid] = obj
+            obj = get_shared(aid)
             self.snap[aid] = copy.deepcopy(obj)
             self.arg_digest[aid] = json_digest(obj)
         self.pristine_digest = dict(self.arg_digest)
@@ -145,8 +150,16 @@ class World:
         self.step = 0
 
     # -- argument access
-    def fresh(self, aid):
-        return model.materialise(self.sc["args"][aid], self.texts[aid])
+    def fresh_family(self):
+        """get_arg for a brand-new family of pristine copies (sharing relations kept)."""
+        mine = {}
+
+        def get_arg(aid):
+            if aid not in mine:
+                mine[aid] = model.materialise_arg(self.sc, self.texts, aid, get_arg)
+            return mine[aid]
+
+        return get_arg
 
     def _changed_args(self):
         chg = {}
@@ -176,13 +189,7 @@ class World:
             spec = self.sc["specs"][sid]
             private = self.sc["clients"][cid].get("private", False)
             if private:
-                mine = {}
-
-                def get_arg(aid, mine=mine):
-                    if aid not in mine:
-                        mine[aid] = self.fresh(aid)
-                    return mine[aid]
-
+                get_arg = self.fresh_family()
             else:
                 get_arg = self.shared.__getitem__
             root = attempt(lambda: model.construct(spec, get_arg))
@@ -241,7 +248,7 @@ def reference(scenario, texts, sid, path):
 
     def get_arg(aid):
         if aid not in mine:
-            mine[aid] = model.materialise(scenario["args"][aid], texts[aid])
+            mine[aid] = model.materialise_arg(scenario, texts, aid, get_arg)
         return mine[aid]
 
     def run():
@@ -259,10 +266,10 @@ def reference_alt_form(scenario, texts, sid, path, shift):
         if aid not in mine:
             ad = scenario["args"][aid]
             if ad["kind"] == "response":
-                ad = dict(ad)
+                ad = {k: v for k, v in ad.items() if k != "view_of"}
                 forms = model.FORMS
                 ad["form"] = forms[(forms.index(ad.get("form", "asis")) + shift) % len(forms)]
-            mine[aid] = model.materialise(ad, texts[aid])
+            mine[aid] = model.materialise_arg(scenario, texts, aid, get_arg, argdef=ad)
         return mine[aid]
 
     def run():
